@@ -53,6 +53,28 @@ from .language_detector import detect_language
 
 logger = logging.getLogger(__name__)
 
+
+def _verif_tap(rule: object, file_path: object) -> None:
+    """Verification hook (THAILINT_VERIF=1): record a swallowed exception as a JSON line."""
+    if os.environ.get("THAILINT_VERIF") != "1":
+        return
+    log_path = os.environ.get("THAILINT_VERIF_FAILLOG")
+    if not log_path:
+        return
+    import json  # pylint: disable=import-outside-toplevel
+    import sys  # pylint: disable=import-outside-toplevel
+
+    exc = sys.exc_info()[1]
+    record = {
+        "rule": str(rule),
+        "file": str(file_path),
+        "exc_type": type(exc).__name__,
+        "exc_msg": str(exc)[:500],
+    }
+    with open(log_path, "a", encoding="utf-8") as handle:
+        handle.write(json.dumps(record) + "\n")
+
+
 # Default max workers for parallel processing (capped to avoid resource contention)
 DEFAULT_MAX_WORKERS = 8
 
@@ -171,6 +193,7 @@ def _lint_file_worker(args: tuple[Path, Path, dict]) -> list[dict]:
         # Convert to dicts for pickling
         return [v.to_dict() for v in violations]
     except Exception:
+        _verif_tap("<worker>", file_path)
         logger.exception("Worker error processing file: %s", file_path)
         return []
 
@@ -344,6 +367,7 @@ class Orchestrator:  # thailint: ignore[srp]
             # Re-raise configuration validation errors (these are user-facing)
             raise
         except Exception:
+            _verif_tap(rule.rule_id, context.file_path)
             logger.exception("Rule %s failed on %s", rule.rule_id, context.file_path)
             return []
 
@@ -420,6 +444,7 @@ class Orchestrator:  # thailint: ignore[srp]
         try:
             return [Violation.from_dict(d) for d in future.result()]
         except Exception:
+            _verif_tap("<future>", None)
             logger.exception("Error extracting violations from worker future")
             return []
 
